@@ -14,6 +14,7 @@ CONSTANTS
  ReadTs = {10, 15, 20, 25, 30, 35, 50}
  Limits = {1, 16}
  Ops <- AllOps
+ Boosts = {0}
  Dev = {}
  GenMode = "any"
  MaxHist = 0
